@@ -935,7 +935,10 @@ fn verif_desc<TKey: JobKey, TMsg: Message>(
         FactoryMessage::Calculate => ("calc", 0, 0, 0, no()),
         FactoryMessage::WorkerPong(w, _) => ("pong", *w as i64, 0, 0, no()),
         FactoryMessage::DoPings(_) => ("pings", 0, 0, 0, no()),
-        _ => ("query", 0, 0, 0, no()),
+        FactoryMessage::GetQueueDepth(_) => ("q_depth", 0, 0, 0, no()),
+        FactoryMessage::GetNumActiveWorkers(_) => ("q_active", 0, 0, 0, no()),
+        FactoryMessage::GetAvailableCapacity(_) => ("q_cap", 0, 0, 0, no()),
+        FactoryMessage::IdentifyStuckWorkers => ("stuck", 0, 0, 0, no()),
     }
 }
 
